@@ -122,7 +122,7 @@ def end_to_end(run, outs, paths, datasets, hashseeds, spec):
                                    hashseed=h, analysis=r["analysis"], args=r.get("args"),
                                    first_difference=d and {"at": d[0], "first": d[1], "second": d[2]}))
                 reported = True
-            stats["repetitions_checked"] += 17
+            stats["repetitions_checked"] += o.get("repeat_checked", 0)
             if h != h0 and "error" not in ref and o.get("aux") != ref.get("aux"):
                 stats["out_of_scope_link_clustering_string_labels_differ"] = \
                     stats.get("out_of_scope_link_clustering_string_labels_differ", 0) + 1
